@@ -101,8 +101,10 @@ def sheet(draw, knobs=None, max_rules=7):
         taken = {n for n, _ in var_defs}
         free = [n for n in RELATED_NAMES if n not in taken]
         if free and draw(st.booleans()):
-            # names that are prefixes / hyphenated extensions of one another (--text, --text-muted, ...)
-            name = draw(st.sampled_from(free))
+            # names that are prefixes / hyphenated extensions of one another (--text, --text-muted, ...) or differ only in
+            # letter case: once one of a family is in use, its relatives are preferred
+            kin = [n for n in free if any(n != t and (n.lower().startswith(t.lower()) or t.lower().startswith(n.lower())) for t in taken)]
+            name = draw(st.sampled_from(kin if kin and draw(st.integers(0, 3)) else free))
         else:
             name = f"--v{var_counter[0]}" + draw(st.sampled_from(["", "-text", "_c", "-Ünï".lower()]))
         var_defs.append((name, value))
